@@ -1,3 +1,4 @@
+import BalmProofs.AllOpsPres
 import BalmProofs.JudgeExact
 import BalmProofs.JudgeSpec
 import Balm
